@@ -340,9 +340,9 @@ TRIPLE = ["--triple=msp430"]
 
 
 def reference_corpus(rng, table_len):
-    """Byte strings beyond what ppci emitted: every 7th first word with the extension words its format takes."""
+    """Byte strings beyond what ppci emitted: every 16th first word with the extension words its format takes."""
     bl = []
-    for w in range(0, 65536, 7):
+    for w in range(0, 65536, 16):
         n = table_len(w)
         if n == 0:
             n = 2
@@ -373,8 +373,8 @@ def llvm_crosscheck(ctx, byte_lists, rng):
         ctx.note("llvm-mc-14 not installed: Msp430.tla not cross-checked")
         return
     emitted = sorted({tuple(b) for b in byte_lists if len(b) in (2, 4, 6)})
-    if len(emitted) > 6000:     # the reference disassembler is slow to start and to warn: a seeded sample is enough here
-        emitted = rng.sample(emitted, 6000)
+    if len(emitted) > 3000:     # the reference disassembler is slow to start and to warn: a seeded sample is enough here
+        emitted = rng.sample(emitted, 3000)
     uniq = sorted(set(emitted) | {tuple(b) for b in reference_corpus(rng, _length_of)})
     dis = []
     for k in range(0, len(uniq), 4000):
